@@ -24,6 +24,24 @@ inductive Ctl
   | callLit (head : String) (body next : Ctl)
   deriving Repr, DecidableEq
 
+/-! ## What `BuildBatcherFromArguments` decides (the translator emits its body as a function into `Rare.Gen.C06`) -/
+
+/-- an argument of the constructor call that is returned -/
+inductive Arg
+  | b (v : Bool)                 -- a boolean variable of the `var (…)` block, evaluated
+  | i (v : Int)                  -- an integer variable, evaluated
+  | glob (recursive : Bool)      -- `dirwalk.GlobExpand(fileglobs, <bool>)`
+  | text (s : String)            -- anything else, as source text
+  deriving Repr, DecidableEq
+
+inductive Decision
+  /-- `logger.Fatalf / Fatalln(<code>, <message> …)`: the process ends here -/
+  | fatal (code msg : String)
+  /-- `return <callee>(<args>)` after the `logger.Println` warnings passed on the way -/
+  | ret (callee : String) (args : List Arg) (warnings : List String)
+  | untranslatable
+  deriving Repr, DecidableEq
+
 inductive Ev
   | op (s : String)
   | deferred (ops : List String)
